@@ -187,3 +187,8 @@ for _p in ("C08", "C10", "C16", "C17"):
     for _c in ("C01.", "C05.packet", "C20.packet"):
         if _c not in _a:
             _a.append(_c)
+
+# An integer result is "decoded to exactly the same number" only if the binary ROW around it is well-formed: the
+# row header, the NULL bitmap and the cell boundaries (C07) are part of what C15 rests on (seeded change C15-d:
+# stale NULL bits of the previous row hide the next row's integers).
+PROPS["C15"]["also"] += ["C07.row", "C07.bitmap", "C07.notnull", "C03.shape", "U3.write_col", "U3.end_row"]
